@@ -41,7 +41,7 @@ func TestZsimC04Engine(t *testing.T) {
 		Run:      c04EngineRun,
 		Horizon:  10 * 24 * time.Hour,
 		MaxSteps: 400000,
-		Rule:     "an engine with two JWT-protected route groups sharing the current secret but not the previous one (bound in either order), one signature-protected route (strict or not, key file generated into the scratch directory) and one open route; requests with tokens signed by the current / previous / wrong secret and valid or expired, signed requests correct or tampered or outside the tolerance; oracle = handler ran iff the reference predicate holds, 401 / 403 otherwise; non-trivial = at least one admitted and one rejected request; distinct = distinct event-log fingerprint",
+		Rule:     "an engine with two JWT-protected route groups sharing the current secret but not the previous one (bound in either order), one signature-protected route (strict or not, key file generated into the scratch directory), one route with both protections (a request failing both is answered 401: the token is looked at first) and one open route; requests with tokens signed by the current / previous / wrong secret and valid or expired, signed requests correct or tampered or outside the tolerance; oracle = handler ran iff the reference predicate holds, 401 / 403 otherwise; non-trivial = at least one admitted and one rejected request; distinct = distinct event-log fingerprint",
 		Real:     []string{"api engine.bindRoutes / appendAuthHandler / signatureVerifier + default chain", "api/router", "api/handler Authorize + ContentSecurityHandler", "api/token", "api/internal/security", "lib/codec"},
 		Stub:     []string{"clients (independent token / signature construction)", "route handlers", "simulated clock"},
 	})
@@ -106,6 +106,8 @@ func c04EngineRun(r *zsim.Run) {
 	}
 	ng.addRoutes(featuredRoutes{signature: signatureSetting{enabled: true, SignatureConfig: SignatureConfig{Strict: strict, Expire: tolerance, PrivateKeys: []PrivateKeyConfig{{Fingerprint: "fp1", KeyFile: keyFile}}}}, routes: []Route{{Method: http.MethodPost, Path: "/signed", Handler: mk("signed")}}})
 	ng.addRoutes(featuredRoutes{routes: []Route{{Method: http.MethodGet, Path: "/open", Handler: mk("open")}}})
+	// a group with both protections: the token is looked at first (401), the signature second (403)
+	ng.addRoutes(featuredRoutes{jwt: jwtSetting{enabled: true, secret: cur, prevSecret: prev}, signature: signatureSetting{enabled: true, SignatureConfig: SignatureConfig{Strict: strict, Expire: tolerance, PrivateKeys: []PrivateKeyConfig{{Fingerprint: "fp1", KeyFile: keyFile}}}}, routes: []Route{{Method: http.MethodPost, Path: "/both", Handler: mk("both")}}})
 	rt := router.NewRouter()
 	if err := ng.bindRoutes(rt); err != nil {
 		r.Failf("bind", "%v", err)
@@ -123,7 +125,34 @@ func c04EngineRun(r *zsim.Run) {
 		var route string
 		want := true
 		wantCode := 0
-		switch o.Intn(5) {
+		signed := func(path string) (*http.Request, bool) {
+			body := fmt.Sprintf(`{"n":%d}`, i)
+			tol := int64(tolerance / time.Second)
+			// (far-away timestamps too: offsets that overflow when turned into nanoseconds)
+			off := zsim.Pick(o, int64(0), 0, tol-2, tol+2, -tol-2, 0, 1<<55, -(1 << 55), 1<<56+3, 1<<34)
+			ts := fmt.Sprint(now + off)
+			key := []byte("engine-hmac-" + id)
+			sum := sha256.Sum256([]byte(body))
+			content := strings.Join([]string{ts, http.MethodPost, path, "a=1", fmt.Sprintf("%x", sum[:])}, "\n")
+			m := hmac.New(sha256.New, key)
+			m.Write([]byte(content))
+			sig := base64.StdEncoding.EncodeToString(m.Sum(nil))
+			enc, _ := rsa.EncryptPKCS1v15(rand.Reader, &c04eKey.PublicKey, []byte(fmt.Sprintf("key=%s; time=%s; type=0", base64.StdEncoding.EncodeToString(key), ts)))
+			tamper := zsim.Pick(o, "none", "none", "body", "query", "missing")
+			q := "a=1"
+			if tamper == "body" {
+				body += " "
+			}
+			if tamper == "query" {
+				q = "a=2"
+			}
+			rq := httptest.NewRequest(http.MethodPost, "http://sim"+path+"?"+q, bytes.NewReader([]byte(body)))
+			if tamper != "missing" {
+				rq.Header.Set(httpx.ContentSecurity, fmt.Sprintf("fingerprint=fp1; secret=%s; signature=%s", base64.StdEncoding.EncodeToString(enc), sig))
+			}
+			return rq, !strict || (tamper == "none" && off >= -tol && off <= tol)
+		}
+		switch o.Intn(6) {
 		case 0:
 			route = "open"
 			req = httptest.NewRequest(http.MethodGet, "http://sim/open", nil)
@@ -150,33 +179,34 @@ func c04EngineRun(r *zsim.Run) {
 				ok = false
 			}
 			want, wantCode = ok, http.StatusUnauthorized
+		case 3:
+			// both protections on one route
+			route = "both"
+			var sigOK bool
+			req, sigOK = signed("/both")
+			secret := zsim.Pick(o, cur, prev, "wrong", cur)
+			jwtOK := secret == cur || (prev != "" && secret == prev)
+			if secret == "" {
+				secret = "none"
+			}
+			exp := now + 100
+			if o.Intn(4) == 0 {
+				exp = now
+				jwtOK = false
+			}
+			if o.Intn(6) != 0 {
+				req.Header.Set("Authorization", "Bearer "+c04eToken(secret, map[string]any{"exp": exp, "uid": i}))
+			} else {
+				jwtOK = false
+			}
+			want = jwtOK && sigOK
+			wantCode = http.StatusUnauthorized
+			if jwtOK {
+				wantCode = http.StatusForbidden
+			}
 		default:
 			route = "signed"
-			body := fmt.Sprintf(`{"n":%d}`, i)
-			tol := int64(tolerance / time.Second)
-			// (far-away timestamps too: offsets that overflow when turned into nanoseconds)
-			off := zsim.Pick(o, int64(0), 0, tol-2, tol+2, -tol-2, 0, 1<<55, -(1 << 55), 1<<56+3, 1<<34)
-			ts := fmt.Sprint(now + off)
-			key := []byte("engine-hmac-" + id)
-			sum := sha256.Sum256([]byte(body))
-			content := strings.Join([]string{ts, http.MethodPost, "/signed", "a=1", fmt.Sprintf("%x", sum[:])}, "\n")
-			m := hmac.New(sha256.New, key)
-			m.Write([]byte(content))
-			sig := base64.StdEncoding.EncodeToString(m.Sum(nil))
-			enc, _ := rsa.EncryptPKCS1v15(rand.Reader, &c04eKey.PublicKey, []byte(fmt.Sprintf("key=%s; time=%s; type=0", base64.StdEncoding.EncodeToString(key), ts)))
-			tamper := zsim.Pick(o, "none", "none", "body", "query", "missing")
-			q := "a=1"
-			if tamper == "body" {
-				body += " "
-			}
-			if tamper == "query" {
-				q = "a=2"
-			}
-			req = httptest.NewRequest(http.MethodPost, "http://sim/signed?"+q, bytes.NewReader([]byte(body)))
-			if tamper != "missing" {
-				req.Header.Set(httpx.ContentSecurity, fmt.Sprintf("fingerprint=fp1; secret=%s; signature=%s", base64.StdEncoding.EncodeToString(enc), sig))
-			}
-			want = !strict || (tamper == "none" && off >= -tol && off <= tol)
+			req, want = signed("/signed")
 			wantCode = http.StatusForbidden
 		}
 		req.Header.Set("X-Req", id)
